@@ -40,6 +40,11 @@ type Profile struct {
 	MinSizedBounds               bool // integer bounds near sized-int limits
 	DefsOnlyPrimitivesAndObjects bool
 
+	// Sat reports whether a numeric node admits some value; unsatisfiable draws
+	// are repaired (constraints dropped) unless KeepUnsat.
+	Sat       func(*model.Node) bool
+	KeepUnsat bool
+
 	// Avoid reports whether a known-finding exclusion switch is on.
 	Avoid func(string) bool
 	// Excluded counts draws changed because of a switch.
@@ -323,8 +328,21 @@ func (c *Ctx) Numeric(t *rapid.T, kind model.Kind, pos Pos) *model.Node {
 	if chance(t, p.PConstraint*0.6, "hasmult") {
 		if kind == model.KInteger {
 			n.MultipleOf = model.FloatP(float64(rapid.SampledFrom([]int{1, 2, 3, 5, 7, 10, 64}).Draw(t, "mult")))
+		} else if pos == PosDef && p.avoid("numbers.named_float_multipleof") {
+			// excluded by a known finding
 		} else {
 			n.MultipleOf = model.FloatP(rapid.SampledFrom([]float64{0.25, 0.5, 1, 1.5, 2, 2.5, 8}).Draw(t, "mult"))
+		}
+	}
+	if p.Sat != nil && !p.KeepUnsat {
+		// repair empty intervals by dropping keywords in a fixed order
+		for _, drop := range []func(){
+			func() { n.ExclMax = nil }, func() { n.ExclMin = nil }, func() { n.Maximum = nil }, func() { n.MultipleOf = nil }, func() { n.Minimum = nil },
+		} {
+			if p.Sat(n) {
+				break
+			}
+			drop()
 		}
 	}
 	return n
@@ -341,9 +359,24 @@ func (c *Ctx) Enum(t *rapid.T) *model.Node {
 	}
 	k := rapid.SampledFrom(kinds).Draw(t, "enumkind")
 	cnt := rapid.IntRange(1, 6).Draw(t, "enumcnt")
+	identKey := func(v jv.V) string {
+		if v.K != jv.Str {
+			return ""
+		}
+		var sb strings.Builder
+		for _, r := range strings.ToLower(v.S) {
+			if (r >= 'a' && r <= 'z') || (r >= '0' && r <= '9') || r > 0x7f {
+				sb.WriteRune(r)
+			}
+		}
+		return "s:" + sb.String()
+	}
 	add := func(v jv.V) {
 		for _, e := range n.EnumVals {
 			if jv.Equal(e, v) {
+				return
+			}
+			if k := identKey(v); k != "" && k == identKey(e) && p.avoid("enums.colliding_constant_names") {
 				return
 			}
 		}
